@@ -13,7 +13,7 @@ Ltac Zify.zify_post_hook ::= Z.div_mod_to_equations.
 (* ------------------------------------------------------------------------------------------ *)
 
 (* the write script never answers Ok(0) and never fails *)
-Definition no_fault (ws : list N) : Prop := Forall (fun k => k <> W_ZERO /\ k <> W_ERR) ws.
+Definition no_fault (ws : list N) : Prop := Forall (fun k => k <> W_ZERO /\ k <> W_ERR /\ k <> W_ERR_AB) ws.
 
 (* all world fields other than wscript, wlog, epoch, stopped are unchanged *)
 Definition same_but_io (w w' : world) : Prop :=
@@ -31,7 +31,7 @@ Definition io_rel (w w' : world) (b : bytes) : Prop :=
 
 (* why a write failed: the kind, and the script element responsible *)
 Definition fault_of (k : N) (ws : list N) : Prop :=
-  (k = EK_WriteZero /\ In W_ZERO ws) \/ (k = EK_Transport /\ In W_ERR ws).
+  (k = EK_WriteZero /\ In W_ZERO ws) \/ (k = EK_Transport /\ In W_ERR ws) \/ (k = EK_Aborted /\ In W_ERR_AB ws).
 
 (* the common postcondition of every "write all of b" loop of the model *)
 Definition wpost (sel : bool) (b : bytes) (w : world) (r : res (option N)) : Prop :=
@@ -124,16 +124,20 @@ Proof. intros H. apply no_fault_suffix. apply H. Qed.
 
 Lemma fault_of_suffix k r d : suffix r d -> fault_of k r -> fault_of k d.
 Proof.
-  intros Hs [[H1 H2]|[H1 H2]]; [left|right]; (split; [exact H1|eapply suffix_In; eassumption]).
+  intros Hs [[H1 H2]|[[H1 H2]|[H1 H2]]]; [left|right; left|right; right]; (split; [exact H1|eapply suffix_In; eassumption]).
 Qed.
 
 Lemma no_fault_not_fault k ws : no_fault ws -> fault_of k ws -> False.
 Proof.
-  unfold no_fault. rewrite Forall_forall. intros H [[_ H2]|[_ H2]]; apply H in H2; tauto.
+  unfold no_fault. rewrite Forall_forall. intros H [[_ H2]|[[_ H2]|[_ H2]]]; apply H in H2; tauto.
 Qed.
 
-Lemma fault_of_kind k ws : fault_of k ws -> k = EK_WriteZero \/ k = EK_Transport.
-Proof. intros [[H _]|[H _]]; tauto. Qed.
+Lemma fault_of_kind k ws : fault_of k ws -> k = EK_WriteZero \/ k = EK_Transport \/ k = EK_Aborted.
+Proof. intros [[H _]|[[H _]|[H _]]]; tauto. Qed.
+
+(* the ConnectionAborted kind comes only from the W_ERR_AB script element *)
+Lemma fault_of_aborted ws : fault_of EK_Aborted ws -> In W_ERR_AB ws.
+Proof. intros [[H _]|[[H _]|[_ H]]]; [discriminate H|discriminate H|exact H]. Qed.
 
 (* shifting the postcondition over bytes already written *)
 Lemma wpost_pre sel a b w w1 r : io_rel w w1 a -> wpost sel b w1 r -> wpost sel (a ++ b) w r.
@@ -193,9 +197,10 @@ Inductive tpw_case (offer : bytes) (w : world) : pres (N + N) * world -> Prop :=
 | tpw_wake w' : wscript w = 0 :: wscript w' -> io_rel w w' [] -> tpw_case offer w (PWake, w')
 | tpw_zero w' : wscript w = W_ZERO :: wscript w' -> io_rel w w' [] -> tpw_case offer w (PReady (inl 0), w')
 | tpw_err w' : wscript w = W_ERR :: wscript w' -> io_rel w w' [] -> tpw_case offer w (PReady (inr EK_Transport), w')
+| tpw_errab w' : wscript w = W_ERR_AB :: wscript w' -> io_rel w w' [] -> tpw_case offer w (PReady (inr EK_Aborted), w')
 | tpw_acc n w' : n <= len offer -> (offer <> [] -> 0 < n) -> io_rel w w' (take n offer) ->
     wscript w' = tl (wscript w) -> (wscript w = [] -> n = len offer) ->
-    (forall k, hd_error (wscript w) = Some k -> k <> 0 /\ k <> W_ZERO /\ k <> W_ERR /\ n = N.min k (len offer)) ->
+    (forall k, hd_error (wscript w) = Some k -> k <> 0 /\ k <> W_ZERO /\ k <> W_ERR /\ k <> W_ERR_AB /\ n = N.min k (len offer)) ->
     tpw_case offer w (PReady (inl n), w').
 
 Lemma len_pos_nonnil {A} (l : list A) : l <> [] -> 0 < len l.
@@ -217,6 +222,8 @@ Proof.
     { subst k. apply tpw_zero; [exact Hs|eapply io_rel_set0; exact Hs]. }
     destruct (N.eqb_spec k W_ERR) as [Hke|Hke].
     { subst k. apply tpw_err; [exact Hs|eapply io_rel_set0; exact Hs]. }
+    destruct (N.eqb_spec k W_ERR_AB) as [Hka|Hka].
+    { subst k. apply tpw_errab; [exact Hs|eapply io_rel_set0; exact Hs]. }
     apply tpw_acc.
     + lia.
     + intros Hne. apply len_pos_nonnil in Hne. lia.
@@ -234,7 +241,8 @@ Theorem t_poll_write_cases offer w p w' : t_poll_write offer w = (p, w') ->
   match p with
   | PWake => hd_error (wscript w) = Some 0
   | PReady (inl n) => n <= len offer /\ (n = 0 -> offer = [] \/ hd_error (wscript w) = Some W_ZERO)
-  | PReady (inr k) => k = EK_Transport /\ hd_error (wscript w) = Some W_ERR
+  | PReady (inr k) => (k = EK_Transport /\ hd_error (wscript w) = Some W_ERR) \/
+                      (k = EK_Aborted /\ hd_error (wscript w) = Some W_ERR_AB)
   | PBlock => False
   end.
 Proof.
@@ -244,14 +252,17 @@ Proof.
     - injection E as _ <-. split; reflexivity.
     - destruct (k =? 0); [injection E as _ <-; split; reflexivity|].
       destruct (k =? W_ZERO); [injection E as _ <-; split; reflexivity|].
-      destruct (k =? W_ERR); injection E as _ <-; split; reflexivity. }
+      destruct (k =? W_ERR); [injection E as _ <-; split; reflexivity|].
+      destruct (k =? W_ERR_AB); injection E as _ <-; split; reflexivity. }
   pose proof (t_poll_write_spec offer w) as H. rewrite E in H.
-  inversion H as [w1 Hs Hio|w1 Hs Hio|w1 Hs Hio|n w1 Hn Hpos Hio Hs Hnil Hk]; subst;
+  inversion H as [w1 Hs Hio|w1 Hs Hio|w1 Hs Hio|w1 Hs Hio|n w1 Hn Hpos Hio Hs Hnil Hk]; subst;
     pose proof (io_rel_no_fault _ _ _ Hio) as Hnf.
   - split; [exact Hio|]. split; [rewrite Hs; reflexivity|].
     split; [tauto|]. split; [tauto|]. split; [exact Hnf|rewrite Hs; reflexivity].
   - split; [rewrite take_0; exact Hio|]. split; [rewrite Hs; reflexivity|].
     split; [tauto|]. split; [tauto|]. split; [exact Hnf|]. split; [lia|]. rewrite Hs. cbn [hd_error]. tauto.
+  - split; [exact Hio|]. split; [rewrite Hs; reflexivity|].
+    split; [tauto|]. split; [tauto|]. split; [exact Hnf|]. rewrite Hs. cbn [hd_error]. tauto.
   - split; [exact Hio|]. split; [rewrite Hs; reflexivity|].
     split; [tauto|]. split; [tauto|]. split; [exact Hnf|]. rewrite Hs. cbn [hd_error]. tauto.
   - split; [exact Hio|]. split; [exact Hs|]. split; [tauto|]. split; [tauto|].
@@ -289,12 +300,14 @@ Proof.
   - cbn [await_write_all wpost]. exists [], b. split; [reflexivity|apply io_rel_refl].
   - cbn [await_write_all]. destruct b as [|x b']; [cbn [wpost]; apply io_rel_refl|].
     set (b := x :: b'). assert (Hne : b <> []) by discriminate.
-    destruct (t_poll_write_spec b w) as [w1 Hs Hio|w1 Hs Hio|w1 Hs Hio|n w1 Hn Hpos Hio Hs Hnil Hk].
+    destruct (t_poll_write_spec b w) as [w1 Hs Hio|w1 Hs Hio|w1 Hs Hio|w1 Hs Hio|n w1 Hn Hpos Hio Hs Hnil Hk].
     + apply on_wake_post; [exact Hne|exact Hio|]. intros w2. apply IH.
     + change (0 =? 0) with true. cbn [wpost]. exists [], b. split; [reflexivity|]. split; [exact Hne|].
       split; [exact Hio|]. left. split; [reflexivity|]. rewrite Hs. left. reflexivity.
     + cbn [wpost]. exists [], b. split; [reflexivity|]. split; [exact Hne|].
-      split; [exact Hio|]. right. split; [reflexivity|]. rewrite Hs. left. reflexivity.
+      split; [exact Hio|]. right; left. split; [reflexivity|]. rewrite Hs. left. reflexivity.
+    + cbn [wpost]. exists [], b. split; [reflexivity|]. split; [exact Hne|].
+      split; [exact Hio|]. right; right. split; [reflexivity|]. rewrite Hs. left. reflexivity.
     + specialize (Hpos Hne). destruct (N.eqb_spec n 0) as [Hn0|Hn0]; [lia|].
       rewrite <- (take_drop n b) at 1. eapply wpost_pre; [exact Hio|apply IH].
 Qed.
@@ -308,10 +321,11 @@ Proof.
   cbn [await_write_all]. destruct b as [|x b']; [discriminate|].
   change (length (wscript w) + 1 < S f)%nat in Hf.
   set (b := x :: b') in *. assert (Hne : b <> []) by discriminate.
-  destruct (t_poll_write_spec b w) as [w1 Hs Hio|w1 Hs Hio|w1 Hs Hio|n w1 Hn Hpos Hio Hs Hnil Hk].
+  destruct (t_poll_write_spec b w) as [w1 Hs Hio|w1 Hs Hio|w1 Hs Hio|w1 Hs Hio|n w1 Hn Hpos Hio Hs Hnil Hk].
   - apply on_wake_not; [discriminate|]. intros w2. apply IH.
     change (length (wscript w1) + 1 < f)%nat. rewrite Hs in Hf. cbn [length] in Hf. lia.
   - change (0 =? 0) with true. discriminate.
+  - discriminate.
   - discriminate.
   - specialize (Hpos Hne). destruct (N.eqb_spec n 0) as [Hn0|Hn0]; [lia|].
     apply IH. rewrite Hs. destruct (wscript w) as [|k ws'] eqn:Hw.
@@ -323,7 +337,7 @@ Qed.
 Theorem await_write_all_spec fuel sel b w :
   match await_write_all fuel sel b w with
   | Ok None w' => io_rel w w' b
-  | Ok (Some k) w' => (k = EK_WriteZero \/ k = EK_Transport) /\ ~ no_fault (wscript w) /\
+  | Ok (Some k) w' => (k = EK_WriteZero \/ k = EK_Transport \/ k = EK_Aborted) /\ ~ no_fault (wscript w) /\
       exists b1 b2, b = b1 ++ b2 /\ b2 <> [] /\ io_rel w w' b1
   | Halt ORet w' => sel = true /\ stopped w' = true /\ exists b1 b2, b = b1 ++ b2 /\ b2 <> [] /\ io_rel w w' b1
   | Halt OFuel w' => (fuel <= length (wscript w) + length b)%nat /\ exists b1 b2, b = b1 ++ b2 /\ io_rel w w' b1
@@ -360,7 +374,7 @@ Proof. intros H. apply await_write_all_fuel. unfold io_fuel, len in *. lia. Qed.
 Definition wspec (sel : bool) (b : bytes) (w : world) (fuel_small : Prop) (r : res (option N)) : Prop :=
   match r with
   | Ok None w' => io_rel w w' b
-  | Ok (Some k) w' => (k = EK_WriteZero \/ k = EK_Transport) /\ ~ no_fault (wscript w) /\
+  | Ok (Some k) w' => (k = EK_WriteZero \/ k = EK_Transport \/ k = EK_Aborted) /\ ~ no_fault (wscript w) /\
       exists b1 b2, b = b1 ++ b2 /\ b2 <> [] /\ io_rel w w' b1
   | Halt ORet w' => sel = true /\ stopped w' = true /\ exists b1 b2, b = b1 ++ b2 /\ b2 <> [] /\ io_rel w w' b1
   | Halt OFuel w' => fuel_small /\ exists b1 b2, b = b1 ++ b2 /\ io_rel w w' b1
@@ -452,12 +466,14 @@ Proof.
       { unfold offer. destruct (vectored w); [|exact Hs1]. intros H. apply app_eq_nil in H. tauto. }
       assert (HBne : B <> []).
       { destruct HB as [rest HB]. rewrite HB. intros H. apply app_eq_nil in H. tauto. }
-      destruct (t_poll_write_spec offer w) as [w1 Hs Hio|w1 Hs Hio|w1 Hs Hio|n w1 Hn Hpos Hio Hs Hnil Hk].
+      destruct (t_poll_write_spec offer w) as [w1 Hs Hio|w1 Hs Hio|w1 Hs Hio|w1 Hs Hio|n w1 Hn Hpos Hio Hs Hnil Hk].
       * apply on_wake_post; [exact HBne|exact Hio|]. intros w2. apply IH.
       * change (0 =? 0) with true. cbn [wpost]. exists [], B. split; [reflexivity|]. split; [exact HBne|].
         split; [exact Hio|]. left. split; [reflexivity|]. rewrite Hs. left. reflexivity.
       * cbn [wpost]. exists [], B. split; [reflexivity|]. split; [exact HBne|].
-        split; [exact Hio|]. right. split; [reflexivity|]. rewrite Hs. left. reflexivity.
+        split; [exact Hio|]. right; left. split; [reflexivity|]. rewrite Hs. left. reflexivity.
+      * cbn [wpost]. exists [], B. split; [reflexivity|]. split; [exact HBne|].
+        split; [exact Hio|]. right; right. split; [reflexivity|]. rewrite Hs. left. reflexivity.
       * specialize (Hpos Hone). destruct (N.eqb_spec n 0) as [Hn0|Hn0]; [lia|].
         destruct HB as [rest HB].
         assert (Ht : take n offer = take n B) by (rewrite HB, take_app_le by lia; reflexivity).
@@ -478,10 +494,11 @@ Proof.
   assert (Hlo : len s1 <= len offer).
   { unfold offer. destruct (vectored w); [rewrite len_app|]; lia. }
   cbn [length] in Hfl.
-  destruct (t_poll_write_spec offer w) as [w1 Hs Hio|w1 Hs Hio|w1 Hs Hio|n w1 Hn Hpos Hio Hs Hnil Hk].
+  destruct (t_poll_write_spec offer w) as [w1 Hs Hio|w1 Hs Hio|w1 Hs Hio|w1 Hs Hio|n w1 Hn Hpos Hio Hs Hnil Hk].
   - apply on_wake_not; [discriminate|]. intros w2. apply IH.
     change (wscript (w_bump w1)) with (wscript w1). rewrite Hs in Hf. cbn [length] in *. lia.
   - change (0 =? 0) with true. discriminate.
+  - discriminate.
   - discriminate.
   - specialize (Hpos Hone). destruct (N.eqb_spec n 0) as [Hn0|Hn0]; [lia|].
     apply IH. rewrite Hs. pose proof (cut_length n (s1 :: more)) as Hc.
@@ -792,7 +809,7 @@ Proof.
       split; reflexivity.
     + set (out := x :: o') in *. assert (Hne : out <> []) by discriminate.
       pose proof (len_pos_nonnil out Hne) as Hlen.
-      destruct (t_poll_write_spec out w) as [w1 Hs Hio|w1 Hs Hio|w1 Hs Hio|n w1 Hn Hpos Hio Hs Hnil Hk].
+      destruct (t_poll_write_spec out w) as [w1 Hs Hio|w1 Hs Hio|w1 Hs Hio|w1 Hs Hio|n w1 Hn Hpos Hio Hs Hnil Hk].
       * cbn [po_post rsp rwriteable rlock]. rewrite Eo. exists 0. rewrite take_0, drop_0. split; [lia|].
         split; [exact Hio|]. split; [reflexivity|]. split; [apply sp_same_refl|]. split; [reflexivity|].
         split; [exact Hlen|]. split; [reflexivity|]. rewrite Hs. left. reflexivity.
@@ -802,9 +819,12 @@ Proof.
         right. split; [exact Hlen|]. split; [reflexivity|]. left. split; [reflexivity|]. rewrite Hs. left. reflexivity.
       * cbn [po_post rsp rwriteable rlock]. rewrite Eo. exists 0. rewrite take_0, drop_0. split; [lia|].
         split; [exact Hio|]. split; [reflexivity|]. split; [apply sp_same_refl|]. split; [reflexivity|].
-        right. split; [exact Hlen|]. split; [reflexivity|]. right. split; [reflexivity|]. rewrite Hs. left. reflexivity.
+        right. split; [exact Hlen|]. split; [reflexivity|]. right; left. split; [reflexivity|]. rewrite Hs. left. reflexivity.
+      * cbn [po_post rsp rwriteable rlock]. rewrite Eo. exists 0. rewrite take_0, drop_0. split; [lia|].
+        split; [exact Hio|]. split; [reflexivity|]. split; [apply sp_same_refl|]. split; [reflexivity|].
+        right. split; [exact Hlen|]. split; [reflexivity|]. right; right. split; [reflexivity|]. rewrite Hs. left. reflexivity.
       * specialize (Hpos Hne). destruct (N.eqb_spec n 0) as [Hn0|Hn0]; [lia|].
-        set (r1 := mkR (consume_output (rsp r) n) (rwriteable r) true).
+        set (r1 := mkR (consume_output (rsp r) n) (rwriteable r) true (raborted r)).
         pose proof (IH r1 w1) as HI. destruct (poll_output f r1 w1) as [[p r'] w'].
         unfold po_post in HI |- *. cbn [rsp rwriteable rlock r1] in HI. cbv zeta in HI |- *.
         rewrite consume_output_buffer, Eo in HI. rewrite Eo.
@@ -831,9 +851,10 @@ Proof.
   cbn [poll_output]. destruct (output_buffer (rsp r)) as [|x o'] eqn:Eo; [cbn [fst]; discriminate|].
   change (length (wscript w) + 1 < S f)%nat in Hf.
   set (out := x :: o') in *. assert (Hne : out <> []) by discriminate.
-  destruct (t_poll_write_spec out w) as [w1 Hs Hio|w1 Hs Hio|w1 Hs Hio|n w1 Hn Hpos Hio Hs Hnil Hk].
+  destruct (t_poll_write_spec out w) as [w1 Hs Hio|w1 Hs Hio|w1 Hs Hio|w1 Hs Hio|n w1 Hn Hpos Hio Hs Hnil Hk].
   - cbn [fst]. discriminate.
   - change (0 =? 0) with true. cbn [fst]. discriminate.
+  - cbn [fst]. discriminate.
   - cbn [fst]. discriminate.
   - specialize (Hpos Hne). destruct (N.eqb_spec n 0) as [Hn0|Hn0]; [lia|].
     apply IH. cbn [rsp]. rewrite consume_output_buffer, Eo. fold out. rewrite Hs.
@@ -853,6 +874,15 @@ Proof.
   destruct (n =? 0); [exact HRI|]. apply IH. cbn [rsp]. apply consume_output_RI. exact HRI.
 Qed.
 
+(* Request.aborted is not touched by flushing *)
+Lemma poll_output_raborted fuel : forall r w, raborted (snd (fst (poll_output fuel r w))) = raborted r.
+Proof.
+  induction fuel as [|f IH]; intros r w; [reflexivity|].
+  cbn [poll_output]. destruct (output_buffer (rsp r)) as [|x o']; [reflexivity|].
+  destruct (t_poll_write (x :: o') w) as [[[n|k]| |] w1]; try reflexivity.
+  destruct (n =? 0); [reflexivity|]. rewrite IH. reflexivity.
+Qed.
+
 (* item 5, spelled out *)
 Theorem poll_output_spec fuel r w p r' w' : poll_output fuel r w = (p, r', w') ->
   let out := output_buffer (rsp r) in
@@ -866,7 +896,7 @@ Theorem poll_output_spec fuel r w p r' w' : poll_output fuel r w = (p, r', w') -
     match p with
     | PReady (inl _) => n = len out /\ output_buffer (rsp r') = [] /\ rlock r' = false
     | PReady (inr k) => (k = 99 /\ (fuel <= length (wscript w) + 1)%nat) \/
-        (n < len out /\ rlock r' = true /\ (k = EK_WriteZero \/ k = EK_Transport) /\ ~ no_fault (wscript w))
+        (n < len out /\ rlock r' = true /\ (k = EK_WriteZero \/ k = EK_Transport \/ k = EK_Aborted) /\ ~ no_fault (wscript w))
     | PWake => n < len out /\ rlock r' = true
     | PBlock => False
     end.
@@ -934,11 +964,11 @@ Lemma perr_kind_rb e : In (perr_kind e) rb_kinds.
 Proof. destruct e; cbn [perr_kind rb_kinds In]; tauto. Qed.
 
 Definition bl_after (f : nat) (r : rstate) (w : world) (p' : sp) : res (option N * rstate) :=
-  let r1 := mkR p' (rwriteable r) (rlock r) in
+  let r1 := mkR p' (rwriteable r) (rlock r) (raborted r) in
   if is_record_boundary p' then Ok (None, r1) w
   else
     let p2 := compress p' in
-    let r2 := mkR p2 (rwriteable r) (rlock r) in
+    let r2 := mkR p2 (rwriteable r) (rlock r) (raborted r) in
     match await_read (io_fuel w 0) false (sinput_space p2) w with
     | Ok (inl []) w' => Ok (Some EK_UnexpectedEof, r2) w'
     | Ok (inl b) w' => boundary_loop maxc f b r2 w'
@@ -951,7 +981,7 @@ Lemma boundary_loop_S f new r w : boundary_loop maxc (S f) new r w =
   | StPanic n => Halt (OPanic (1000 + n)) w
   | StOk p' _ => bl_after f r w p'
   | StErr p' EAbortRequest _ => bl_after f r w p'
-  | StErr p' e _ => Ok (Some (perr_kind e), mkR p' (rwriteable r) (rlock r)) w
+  | StErr p' e _ => Ok (Some (perr_kind e), mkR p' (rwriteable r) (rlock r) (raborted r)) w
   end.
 Proof. reflexivity. Qed.
 
@@ -967,20 +997,20 @@ Proof.
   assert (Hafter : forall p', bl_after f r w p' = Ok (e, r') w' -> rb_post r w e r' w').
   { intros p' Ea. unfold bl_after in Ea. cbv zeta in Ea.
     destruct (is_record_boundary p') eqn:Eb.
-    - injection Ea as <- <- <-. unfold rb_post. cbn [rsp rwriteable rlock]. repeat split; exact Eb.
+    - injection Ea as <- <- <-. unfold rb_post. cbn [rsp rwriteable rlock raborted]. repeat split; exact Eb.
     - destruct (await_read (io_fuel w 0) false (sinput_space (compress p')) w) as [[b|k] w1|o w1] eqn:ER;
         [| |discriminate Ea].
       + apply await_read_spec in ER. destruct ER as (R1 & R2 & _). destruct b as [|x b'].
         * injection Ea as <- <- <-. unfold rb_post. cbn [rsp rwriteable rlock rb_kinds In].
           repeat split; try assumption. tauto.
-        * apply IH in Ea. unfold rb_post in *. cbn [rsp rwriteable rlock] in Ea.
+        * apply IH in Ea. unfold rb_post in *. cbn [rsp rwriteable rlock raborted] in Ea.
           rewrite R1, R2 in Ea. exact Ea.
       + apply await_read_spec in ER. destruct ER as (R1 & R2 & R3). specialize (R3 k eq_refl). subst k.
         injection Ea as <- <- <-. unfold rb_post. cbn [rsp rwriteable rlock rb_kinds In].
         repeat split; try assumption. tauto. }
   destruct (sparse maxc (rsp r) new None) as [p' s|p' pe s|n]; [apply (Hafter p'); exact E| |discriminate E].
   destruct pe; try (apply (Hafter p'); exact E);
-    injection E as <- <- <-; unfold rb_post; cbn [rsp rwriteable rlock];
+    injection E as <- <- <-; unfold rb_post; cbn [rsp rwriteable rlock raborted];
     (repeat split; try reflexivity); unfold rb_kinds; cbn [In]; tauto.
 Qed.
 
@@ -1022,7 +1052,7 @@ Definition close_finish (r3 : rstate) (disc code : N) (w2 : world) : res (parser
 Lemma close_tail_unfold r1 disc code w1 : close_tail maxc r1 disc code w1 =
   match set_stream (rsp r1) None with
   | SetOk p2 =>
-    match record_boundary maxc (mkR p2 (rwriteable r1) (rlock r1)) w1 with
+    match record_boundary maxc (mkR p2 (rwriteable r1) (rlock r1) (raborted r1)) w1 with
     | Halt o w' => Halt o w'
     | Ok (Some k2, _) w2 => Ok (inr k2) w2
     | Ok (None, r3) w2 => close_finish r3 disc code w2
@@ -1052,7 +1082,7 @@ Definition cf_post (r3 : rstate) (w2 : world) (ep : bytes) (x : res (parser + N)
       (io_rel w2 w' total /\
          ((k = EK_Reset /\ N.land (r_flags (sreq (rsp r3))) FLAG_KeepConn <> FLAG_KeepConn) \/
           (k = EK_Other /\ is_record_boundary (rsp r3) = false))) \/
-      ((k = EK_WriteZero \/ k = EK_Transport) /\ ~ no_fault (wscript w2) /\
+      ((k = EK_WriteZero \/ k = EK_Transport \/ k = EK_Aborted) /\ ~ no_fault (wscript w2) /\
          exists b1 b2, total = b1 ++ b2 /\ b2 <> [] /\ io_rel w2 w' b1)
   | Halt (OPanic 62) w' => io_rel w2 w' total /\ ~ RI (rsp r3)
   | Halt _ _ => False
@@ -1107,14 +1137,14 @@ Theorem close_tail_log r1 disc code w1 x w' :
   close_tail maxc r1 disc code w1 = Ok x w' -> (x = inr EK_Reset \/ exists rp, x = inl rp) ->
   exists p2 r3 w2 ep,
     set_stream (rsp r1) None = SetOk p2 /\
-    record_boundary maxc (mkR p2 (rwriteable r1) (rlock r1)) w1 = Ok (None, r3) w2 /\
+    record_boundary maxc (mkR p2 (rwriteable r1) (rlock r1) (raborted r1)) w1 = Ok (None, r3) w2 /\
     wlog w2 = wlog w1 /\ rwriteable r3 = rwriteable r1 /\ is_record_boundary (rsp r3) = true /\
     epilogue (r_id (sreq (rsp r3))) disc code (if rwriteable r1 then ROLE_OUTPUT_STREAMS else []) = Some ep /\
     wlog w' = wlog w2 ++ output_buffer (rsp r3) ++ ep /\ same_but_io w2 w'.
 Proof.
   rewrite close_tail_unfold. intros E Hx.
   destruct (set_stream (rsp r1) None) as [p2| |]; [|discriminate E|discriminate E].
-  destruct (record_boundary maxc (mkR p2 (rwriteable r1) (rlock r1)) w1) as [[[k2|] r3] w2|o w2] eqn:ERB;
+  destruct (record_boundary maxc (mkR p2 (rwriteable r1) (rlock r1) (raborted r1)) w1) as [[[k2|] r3] w2|o w2] eqn:ERB;
     [| |discriminate E].
   - exfalso. apply record_boundary_spec in ERB. destruct ERB as (_ & _ & _ & _ & Hk).
     injection E as <- <-. destruct Hx as [Hx|[rp Hx]]; [|discriminate Hx]. injection Hx as ->.
@@ -1126,7 +1156,7 @@ Proof.
     + exists p2, r3, w2, ep. split; [reflexivity|]. split; [exact ERB|]. split; [exact B1|]. split; [exact B3|].
       split; [exact B5|]. split; [exact Eep|]. rewrite E in H. unfold cf_post in H. cbv zeta in H.
       destruct Hx as [Hx|[rp Hx]]; subst x.
-      * destruct H as [[H _]|[[Hk|Hk] _]]; [split; apply H|vm_compute in Hk; discriminate Hk|vm_compute in Hk; discriminate Hk].
+      * destruct H as [[H _]|[[Hk|[Hk|Hk]] _]]; [split; apply H|vm_compute in Hk; discriminate Hk..].
       * destruct H as [H _]. split; apply H.
     + rewrite H in E. discriminate E.
 Qed.
@@ -1141,7 +1171,7 @@ Theorem close_tail_log_shape maxc r1 disc code w1 x w' :
   close_tail maxc r1 disc code w1 = Ok x w' -> (x = inr EK_Reset \/ exists rp, x = inl rp) ->
   exists p2 r3 w2 ast ps,
     set_stream (rsp r1) None = SetOk p2 /\
-    record_boundary maxc (mkR p2 (rwriteable r1) (rlock r1)) w1 = Ok (None, r3) w2 /\
+    record_boundary maxc (mkR p2 (rwriteable r1) (rlock r1) (raborted r1)) w1 = Ok (None, r3) w2 /\
     wlog w2 = wlog w1 /\ exit_to_end disc code = Some (ast, ps) /\
     let id := r_id (sreq (rsp r3)) in
     wlog w' = wlog w2 ++ output_buffer (rsp r3) ++
@@ -1159,19 +1189,22 @@ Proof.
   - unfold epilogue in H6. rewrite Ex in H6. discriminate H6.
 Qed.
 
-(* Request::close as a whole: close_tail runs after writeable() returned Ok or Aborted; any other
-   error of writeable() is returned as it is, without a further write *)
+(* Request::close as a whole: close_tail runs after writeable() returned Ok, or the Aborted kind while the
+   request's aborted flag is set (the parser reported AbortRequest); any other error of writeable() — in
+   particular a ConnectionAborted-kind transport error — is returned as it is, without a further write *)
 Corollary do_close_cases maxc r disc code w x w' :
   do_close maxc r disc code w = Ok x w' ->
   exists e r1 w1, do_writeable maxc r w = Ok (e, r1) w1 /\
-    (((e = None \/ e = Some EK_Aborted) /\ close_tail maxc r1 disc code w1 = Ok x w') \/
-     (exists k, e = Some k /\ k <> EK_Aborted /\ x = inr k /\ w' = w1)).
+    (((e = None \/ (e = Some EK_Aborted /\ raborted r1 = true)) /\ close_tail maxc r1 disc code w1 = Ok x w') \/
+     (exists k, e = Some k /\ (k <> EK_Aborted \/ raborted r1 = false) /\ x = inr k /\ w' = w1)).
 Proof.
   unfold do_close. intros E.
   destruct (do_writeable maxc r w) as [[[k|] r1] w1|o w1]; [| |discriminate E].
   - exists (Some k), r1, w1. split; [reflexivity|]. destruct (N.eqb_spec k EK_Aborted) as [Hk|Hk].
-    + subst k. left. tauto.
-    + right. exists k. injection E as <- <-. tauto.
+    + subst k. cbn [andb] in E. destruct (raborted r1) eqn:Hab.
+      * left. tauto.
+      * right. exists EK_Aborted. injection E as <- <-. tauto.
+    + right. exists k. cbn [andb] in E. injection E as <- <-. tauto.
   - exists None, r1, w1. tauto.
 Qed.
 
@@ -1311,6 +1344,14 @@ Example ex_writer_fault :
   end.
 Proof. vm_compute. repeat split; reflexivity. Qed.
 
+(* the same with a ConnectionAborted-kind transport error *)
+Example ex_writer_fault_ab :
+  match writer_write_all 3 RT_Stdout 1 [1; 2; 3; 4; 5] (ex_world [3; 0; 6; W_ERR_AB; 2] true) with
+  | Ok (Some k) w' => k = EK_Aborted /\ wlog w' = [7] ++ take 9 (stream_records RT_Stdout 1 [1; 2; 3; 4; 5]) /\ wscript w' = [2]
+  | _ => False
+  end.
+Proof. vm_compute. repeat split; reflexivity. Qed.
+
 (* shutdown observed while a write is pending inside select *)
 Example ex_await_shutdown :
   match await_write_all 9 true [1; 2; 3] (mkW [] [1; 0; 5] [] [] 0 1 2 false true []) with
@@ -1323,7 +1364,7 @@ Definition ex_sp : sp := mkSp (zeros 32) 0 0 0 0 [9; 9; 9; 9; 9] 2 (mkReq 1 1 1 
 
 (* close on a keep-alive request with three bytes of parser output pending *)
 Example ex_close :
-  match close_tail 10 (mkR ex_sp true false) EXIT_Complete 0 (ex_world [2; 0; 1; 9; 3] false) with
+  match close_tail 10 (mkR ex_sp true false false) EXIT_Complete 0 (ex_world [2; 0; 1; 9; 3] false) with
   | Ok (inl _) w' =>
       wlog w' = [7] ++ [9; 9; 9] ++ hdr_encode RT_Stdout 1 0 0 ++ hdr_encode RT_Stderr 1 0 0 ++ end_record 0 0 1
   | _ => False
@@ -1331,7 +1372,7 @@ Example ex_close :
 Proof. vm_compute. reflexivity. Qed.
 
 Example ex_poll_output_wake :
-  match poll_output 10 (mkR ex_sp true false) (ex_world [2; 0; 1] false) with
+  match poll_output 10 (mkR ex_sp true false false) (ex_world [2; 0; 1] false) with
   | (PWake, r', w') => wlog w' = [7; 9; 9] /\ output_buffer (rsp r') = [9] /\ rlock r' = true
   | _ => False
   end.
